@@ -119,7 +119,6 @@ Lemma both_and d x y : both d x y = x && y.
 Proof. destruct d; simpl; auto using andb_comm. Qed.
 
 (* ================= tables of partially applied comparisons ================= *)
-Definition tab (f : schema -> schema -> bool) (x : schema) : cmp := (x, f x).
 Definition otab f (o : option schema) : option cmp :=
   match o with Some x => Some (x, f x) | None => None end.
 Definition etab f (l : list (option schema)) : list (option cmp) :=
@@ -251,11 +250,6 @@ Fixpoint eqb1 (s1 s2 : schema) {struct s1} : bool :=
   | SCustom t1, SCustom t2 => eqb1 t1 t2
   | _, _ => false
   end.
-
-Ltac osym :=
-  repeat first
-    [ rewrite (o_eq_sym int_eq int_eq_sym _ _)
-    | fail ].
 
 Lemma eq_dir_eqb1 : forall s1 s2 d, eq_dir d s1 s2 = eqb1 s1 s2.
 Proof.
@@ -1557,3 +1551,24 @@ Proof.
   intros M -> Hin. destruct (mf_list _ _ _ _ _ M) as [Me _]. specialize (Me l eq_refl).
   rewrite Forall_forall in Me. destruct (Me _ Hin x eq_refl) as [H _]. rewrite <- verdict_ell. exact H.
 Qed.
+
+(* ================= witnesses against the unconditional statements ================= *)
+(* schema.list([schema.any]), schema.list([...]), schema.list([schema.alias("x", schema.any)]) *)
+Definition ex_list_any : schema := SList (Some [Some (SAny None)]) None None None None.
+Definition ex_list_ell : schema := SList (Some [None]) None None None None.
+Definition ex_list_alias : schema :=
+  SList (Some [Some (SAlias (Some [120%N]) (SAny None))]) None None None None.
+
+Lemma eq_refl_refuted_lemma :
+  exists s, keys_distinct s = true /\ wf s = true /\ schema_eqb s s = false.
+Proof. exists (SFloat (Some fnan) None None None). vm_compute. auto. Qed.
+
+Lemma eq_same_verdicts_refuted_lemma :
+  exists s1 s2 v, wf s1 = true /\ wf s2 = true /\ no_nan_params s1 = true /\ no_nan_params s2 = true /\
+                  schema_eqb s1 s2 = true /\ verdict s1 v = false /\ verdict s2 v = true.
+Proof. exists ex_list_any, ex_list_ell, (VList []). vm_compute. auto 10. Qed.
+
+Lemma eq_trans_refuted_lemma :
+  exists s1 s2 s3, wf s1 = true /\ wf s2 = true /\ wf s3 = true /\
+                   schema_eqb s1 s2 = true /\ schema_eqb s2 s3 = true /\ schema_eqb s1 s3 = false.
+Proof. exists ex_list_any, ex_list_ell, ex_list_alias. vm_compute. auto 10. Qed.
